@@ -105,7 +105,7 @@ package drpcpool
 
 // poolConn.Close may be called more than once by users of the connection.
 //@ func (*poolConn).Close
-//@   props C15 C19
+//@   props C15
 //@   modifies *
 
 // the expiry callback: closes the connection and unlinks the entry under the pool lock
